@@ -124,13 +124,28 @@ Proof. exact c12_refuted_without_s5_fix. Qed.
 Print Assumptions c12_unknown_ids_refuted_without_fix.
 
 Theorem c12_refuted_with_mutex_only :
-  execs_after {| use_lock := true; use_wcheck := false; read_absent_empty := false; max_submit := 1800000 |}
+  execs_after {| use_lock := true; use_wcheck := false; read_absent_empty := false; read_before_lock := false;
+                 max_submit := 1800000 |}
               tr_seq 0 = Some 2%nat.
 Proof. exact mutex_without_waiter_check_refuted. Qed.
 Print Assumptions c12_refuted_with_mutex_only.
 
 Theorem c12_refuted_with_waiter_check_only :
-  execs_after {| use_lock := false; use_wcheck := true; read_absent_empty := false; max_submit := 1800000 |}
+  execs_after {| use_lock := false; use_wcheck := true; read_absent_empty := false; read_before_lock := false;
+                 max_submit := 1800000 |}
               tr_race 0 = Some 2%nat.
 Proof. exact waiter_check_without_mutex_refuted. Qed.
 Print Assumptions c12_refuted_with_waiter_check_only.
+
+(* The order inside Start matters, not only the presence of mutex and waiter check: with store.Read moved in
+   front of startMu.Lock (everything else as it is) a call that read the plan as NotStarted, and is held up
+   until the execution another call started has finished and removed its waiter, runs the plan a second time -
+   both calls return nil.  While the first execution is still in flight the same interleaving is rejected. *)
+Theorem c12_refuted_with_read_before_lock :
+  execs_after {| use_lock := true; use_wcheck := true; read_absent_empty := false; read_before_lock := true;
+                 max_submit := 1800000 |} tr_stale_read 0 = Some 2%nat
+  /\ results_of {| use_lock := true; use_wcheck := true; read_absent_empty := false; read_before_lock := true;
+                   max_submit := 1800000 |} tr_stale_read
+     = Some [ROk; RNone; RNone; RNone; RNone; ROk; RNone; RNone; RNone; RNone; ROk].
+Proof. exact read_before_lock_refuted. Qed.
+Print Assumptions c12_refuted_with_read_before_lock.
